@@ -82,7 +82,7 @@ def noredraw_update(xp, pp, pbar, h, r, y):
 
 def stale_cross_update(xp, pp, f, l_est, h, r, y):
     """Defect signature: S from sigma points redrawn around (xp, pp) but C from the old state residuals F*L_est."""
-    l_pp = np.linalg.cholesky(sym(pp))
+    l_pp = np.linalg.cholesky(pp)  # lower triangle, exactly what the filter factorises
     s = sym(h @ pp @ h.T) + r
     c = (f @ l_est) @ (h @ l_pp).T
     k = _gain(c, s)
